@@ -205,6 +205,39 @@ CLAIMS = {
         technique="constexpr-closure over the resolved call graph, sibling-implementation agreement on canonical "
                   "forms, typestate rules, compile-fail witness",
     ),
+    "C13": dict(
+        category="proof",
+        text="The context travels through six functions and one function-pointer type. In every instantiation of the "
+             "witness matrix (context passed as lvalue, const lvalue, prvalue, move-only rvalue, non-copyable "
+             "lvalue) each carrying parameter is a reference type and each hand-over is std::forward of exactly "
+             "that parameter (CTX-R), nothing of the context's type is constructed on the way (CTX-C), the context "
+             "is the first functor argument iff the rule is contextual in all three arms of reduce_value_impl "
+             "(ARGS), the rule operators produce the contextual flag as documented (CTX-O) and parse is "
+             "context_parse with an empty context (CTX-P). By the C++ reference-binding rules this is identity and "
+             "constness preservation for all inputs and grammars; obligations are enumerated from the source and "
+             "each discharged by a resolved-AST rule.",
+        design_ref="DESIGN.md 5/C13",
+        note=TB + " 'In reduction order' is the order of reductions (C02). What a functor that takes the context by "
+                  "value does to an rvalue context is the functor's own move.",
+        technique="reference/forwarding chain analysis over resolved instantiations (custom clang plugin + rules)",
+    ),
+    "C14": dict(
+        category="other",
+        text="Copies are resolved calls of copy constructors / copy assignments: the parser's transport functions are "
+             "scanned in the instantiations with std::string, std::vector and unique_ptr values, where a copy would "
+             "compile silently (MOVE-T); every functor argument is std::get<T_k>(std::move(*(start+k))) of a distinct "
+             "slot (ARGS); term_value moves its value in and, as an rvalue, out, cvector primitives move, the result "
+             "is moved into the optional (MOVE-V); the consumed slice is erased right after the single invocation "
+             "(ONCE); a parser with move-only nonterminal and typed-term values compiles on all buffers (MOVE-W, "
+             "type-level witness); the value stack is an automatic std::vector or a cvector of a trivially "
+             "destructible variant, hence exactly-once destruction on every exit (RAII). These rules found the "
+             "repaired defects D11/D11b.",
+        design_ref="DESIGN.md 5/C14",
+        note=TB + " Not decided: copies made by design in user-visible helpers (val, push_back, lvalue conversion of "
+                  "term_value).",
+        technique="copy/move resolution analysis over instantiations with non-trivial value types, type-level "
+                  "(compile-fail) witness",
+    ),
 }
 
 NOT_APPLICABLE = {
